@@ -24,22 +24,15 @@ theorem c01_icmp4_sound {s : IcmpSt} {pkt : Bytes} {t : Nat} {a : Bytes} {d : Bo
     genuineIcmp4 s.cfg s.sent t a d (pkt.take bufSize) = true :=
   (icmp4_sound h hv4).1
 
-/-- ICMP over IPv6. Partial: stated for packets whose QUOTED IPv6 header has no hop-by-hop header
-    (the tool's probes never carry one); echo replies need no such restriction. -/
-theorem c01_icmp6_sound_partial {s : IcmpSt} {pkt : Bytes} {t : Nat} {a : Bytes} {d : Bool} {tm : Nat}
+/-- ICMP over IPv6, full strength: no restriction on the quoted header.  (On the pinned tree this
+    was provable only for packets whose quoted IPv6 header has no hop-by-hop header; since the fix
+    for F11 the driver demands that the quoted next-header field is ICMPv6, so a quote with an
+    extension header — which no probe of this tool carries — is never accepted.) -/
+theorem c01_icmp6_sound {s : IcmpSt} {pkt : Bytes} {t : Nat} {a : Bytes} {d : Bool} {tm : Nat}
     (hmin : 1 ≤ s.cfg.min) (h : icmpRecv s pkt = .accept t a d tm)
-    (hv6 : ∃ b0, u8 (pkt.take bufSize) 0 = some b0 ∧ b0 / 16 = 6)
-    (hnoq : ∀ k, u8 (pkt.take bufSize) (k + 8 + 6) ≠ some 0 ∨ d = true) :
+    (hv6 : ∃ b0, u8 (pkt.take bufSize) 0 = some b0 ∧ b0 / 16 = 6) :
     genuineIcmp6 s.cfg s.sent t a d (pkt.take bufSize) = true :=
-  (icmp6_sound_partial hmin h hv6 hnoq).1
-
-/-- the full-strength statement for ICMPv6 (no restriction on the quoted header); not proved:
-    with a quoted jumbo hop-by-hop header gopacket leaves the extension header inside the payload
-    and the model reads the echo fields at an offset the reference view does not use -/
-def c01_icmp6_sound_full : Prop :=
-  ∀ (s : IcmpSt) (pkt : Bytes) (t : Nat) (a : Bytes) (d : Bool) (tm : Nat), 1 ≤ s.cfg.min →
-    icmpRecv s pkt = .accept t a d tm → (∃ b0, u8 (pkt.take bufSize) 0 = some b0 ∧ b0 / 16 = 6) →
-    genuineIcmp6 s.cfg s.sent t a d (pkt.take bufSize) = true
+  (icmp6_sound hmin h hv6).1
 
 /-- UDP over IPv4, strict and relaxed source checking, every state reachable by sends -/
 theorem c01_udp4_sound {s : UdpSt} {pkt : Bytes} {t : Nat} {a : Bytes} {d : Bool} {tm : Nat}
@@ -132,7 +125,7 @@ example :
     icmpRecv st (te 259) = .retry := by decide
 
 #print axioms c01_icmp4_sound
-#print axioms c01_icmp6_sound_partial
+#print axioms c01_icmp6_sound
 #print axioms c01_udp4_sound
 #print axioms c01_udp6_sound
 #print axioms c01_udp_inv_reachable
